@@ -437,6 +437,7 @@ static bool upipe_audio_copy_handle(struct upipe *upipe,
 
     if (unlikely(ubase_check(uref_flow_get_def(uref, NULL)))) {
         upipe_audio_copy_set_flow_def_real(upipe, uref);
+        uref_free(uref);
         return true;
     }
 
@@ -498,7 +499,10 @@ static int upipe_audio_copy_set_flow_def(struct upipe *upipe,
     UBASE_RETURN(uref_sound_flow_get_rate(flow_def, NULL));
     UBASE_RETURN(uref_sound_flow_get_planes(flow_def, NULL));
     UBASE_RETURN(uref_sound_flow_get_sample_size(flow_def, NULL));
-    upipe_input(upipe, flow_def, NULL);
+    /* the definition may be kept behind held buffers: it must be our own copy */
+    struct uref *flow_def_dup = uref_dup(flow_def);
+    UBASE_ALLOC_RETURN(flow_def_dup);
+    upipe_input(upipe, flow_def_dup, NULL);
     return UBASE_ERR_NONE;
 }
 
